@@ -209,6 +209,16 @@ def run_shard(ctx: ShardCtx) -> ShardResult:
             hostile_dir = (hd_cls, hd)
         except OSError:
             res.count('hostile_directory.not_a_file_name')
+        # ... and a multi-period stream whose *name* (free text as well) is the hostile string
+        hostile_mps = None
+        try:
+            add_mps_db(env, hd, [
+                {'pid': 'p1', 'stream': 'bbb', 'start': 4, 'duration': 16, 'tracks': [('video', 1, 'main'), ('audio', 2, 'main')]},
+                {'pid': 'p2', 'stream': 'tears', 'start': 8, 'duration': 12, 'tracks': [('video', 1, 'main'), ('audio', 2, 'main')]}],
+                title='hostile name')
+            hostile_mps = hd
+        except Exception:
+            res.count('hostile_mps.not_created')
         reach = Reach([
             ('dashlive.server.template_tags', 'xmlSafe'),
             ('dashlive.server.requesthandler.template_context', 'create_template_context'),
@@ -252,6 +262,30 @@ def run_shard(ctx: ShardCtx) -> ShardResult:
                                         res.violation('hostile-directory-adds-template-identifier',
                                                       f'{url}: SegmentTemplate@{att}={v[:120]!r} has identifiers {sorted(bad)}',
                                                       {'case': case, 'hostile': hd_cls})
+        if hostile_mps is not None:
+            import re as _re2
+            for mode in ('vod', 'live'):
+                for extra in ('', '?base=0', '?timeline=1', '?base=0&drm=all'):
+                    env.clock.set(datetime.datetime(2024, 5, 5, 5, 5, 5, tzinfo=datetime.timezone.utc))
+                    url = f'/mps/{mode}/{_q(hostile_mps, safe="")}/hand_made.mpd{extra}'
+                    r = env.get(url, client=rend.client)
+                    res.evaluations += 1
+                    res.count('hostile_mps.requests')
+                    if r.status_code != 200:
+                        res.count(f'hostile_mps.status.{r.status_code}')
+                        continue
+                    case = {'route': 'mps', 'stream': hostile_mps, 'manifest': 'hand_made.mpd', 'mode': mode, 'params': {}, 'loc': 'mps-name'}
+                    root = check_doc(res, case, r.data, url, 'mpd', 'mps-name', hd_cls)
+                    if root is not None:
+                        res.count('hostile_mps.documents')
+                        for el in root.iter(R.Q + 'SegmentTemplate'):
+                            for att in ('media', 'initialization'):
+                                v = el.get(att) or ''
+                                bad = set(_re2.findall(r'\$([A-Za-z]*)(?:%[^$]*)?\$', v)) - {'RepresentationID', 'Number', 'Time', 'Bandwidth', ''}
+                                if bad:
+                                    res.violation('hostile-mps-name-adds-template-identifier',
+                                                  f'{url}: SegmentTemplate@{att}={v[:120]!r} has identifiers {sorted(bad)}',
+                                                  {'case': case, 'hostile': hd_cls})
         for rnd in range(rounds):
             cases = gen_cases(ctx, per_round)
             # ---- pass 1: benign metadata
